@@ -1,19 +1,13 @@
 (* C17 proofs, part B: reachability corollaries, computed witnesses (refutations) and finite
    instance theorems. *)
 From Coq Require Import List NArith Bool Arith Lia.
-From LTV.C17 Require Import Model ProofsA.
+From LTV.C17 Require Import Model ProofsA ProofsC.
 Import ListNotations.
 
 Lemma init_wf progs nids bds : Forall wf_thread (threads (init progs nids bds)).
 Proof.
   unfold init; simpl. apply Forall_forall. intros th H. apply in_map_iff in H. destruct H as (p & <- & _).
   unfold wf_thread, init_thread; simpl. apply sh_c. constructor.
-Qed.
-
-Lemma step_crashed_mono c t c' : step c t = Some c' -> crashed c = true -> crashed c' = true.
-Proof.
-  intros H C. unfold step in H. more_cases H. all: use_specs.
-  all: unfold start_entry; rewrite ?crashed_post_ret, ?crashed_cw_ret; simpl; rewrite ?crashed_post_ret, ?crashed_cw_ret; simpl; auto.
 Qed.
 
 Lemma reachable_wf progs nids bds c :
@@ -60,7 +54,7 @@ Proof.
 Qed.
 
 (* ------------------------------------------------------------------ computed witnesses *)
-Definition ev_eqb_run (u : uid) (e : event) : bool := match e with EvRun v _ => uid_eqb u v | _ => false end.
+Definition ev_eqb_run (u : uid) (e : event) : bool := match e with EvRun v _ _ => uid_eqb u v | _ => false end.
 Definition ev_eqb_postret (u : uid) (e : event) : bool := match e with EvPostRet v => uid_eqb u v | _ => false end.
 Definition ev_is_cwbegin (t : tid) (i : idx) (e : event) : bool :=
   match e with EvCwBegin t' i' => Nat.eqb t t' && Nat.eqb i i' | _ => false end.
@@ -91,7 +85,7 @@ Definition wit_sched : list tid :=
 Lemma cancel_final_two_arg_refuted :
   exists progs bds nids sched u t i,
     let c := run (init progs nids bds) sched in
-    crashed c = false /\ In u (fin2 c) /\ runs_after_cancel (rev (log c)) u t i = true.
+    crashed c = false /\ In (u, i) (fin2 c) /\ runs_after_cancel (rev (log c)) u t i = true.
 Proof.
   exists wit_progs, wit_bodies, 1, wit_sched, (0, 0), 0, 0. vm_compute. repeat split; auto.
 Qed.
@@ -142,27 +136,3 @@ Example generation_strictly_increases :
   map gen (ids (run (init wit_progs 1 wit_bodies) wit_sched)) = [1%N].
 Proof. vm_compute. reflexivity. Qed.
 
-(* ------------------------------------------------------------------ planned, NOT PROVED (statements only)
-   The inductive invariants below were designed (DESIGN.md C17) but their preservation proofs are not
-   done; they are exercised only by the correspondence run + the oracle of props/c17.py. *)
-Definition holds (i : idx) (it : item) : nat :=
-  match it with
-  | IPostLock _ _ j _ _ _ | IPostSub _ j _ _ | IEndCb j _ | ISkipSub j _ => if Nat.eqb i j then 1 else 0
-  | IRun e | IRet e => if oidx_is (e_id e) i then 1 else 0
-  | _ => 0
-  end.
-Definition holders (i : idx) (c : cfg) : nat :=
-  fold_right (fun th acc => fold_right (fun it a => holds i it + a) 0 (todo th) + acc) 0 (threads c).
-(* count bits = posts in flight + dispatches between their fetch_add and fetch_sub *)
-Definition count_invariant_stmt : Prop := forall progs nids bds c i w,
-  reachable (init progs nids bds) c -> crashed c = false -> nth_error (ids c) i = Some w ->
-  cnt w = N.of_nat (holders i c).
-Definition runs_at_most_once_stmt : Prop := forall progs nids bds c u,
-  reachable (init progs nids bds) c -> length (filter (ev_eqb_run u) (log c)) <= 1.
-(* single-argument form / two-argument form outside a callback of the id *)
-Definition cancel_final_single_stmt : Prop := forall progs nids bds c u,
-  reachable (init progs nids bds) c -> crashed c = false ->
-  (forall i w, nth_error (ids c) i = Some w -> (gen w < gmod)%N) ->
-  In u (fin1 c) ->
-  (forall th, In th (threads c) -> cur th <> Some u) /\
-  forall sched, length (filter (ev_eqb_run u) (log (run c sched))) = length (filter (ev_eqb_run u) (log c)).
